@@ -9,13 +9,13 @@ ID = 'C24'
 ENGINE = 'chartgen+model'
 RULE = ('generated well-formed charts with exactly ONE injected fault: (a) a state whose initial transition targets a state that is not '
         'nested inside it (its parent, an ancestor, a sibling, an unrelated state, itself), reached by start_at or by a later dispatch '
-        'from every topology class; (b) a state that returns None when a user event is offered to it. Whenever the reference model says '
+        'from every topology class; (b) a state that returns None when a user event is offered to it; (c) a state whose handler never returns a status at all (forgotten return), reached by being offered an event, by start_at entering it, or by a transition whose entry / init path leads into it. Whenever the reference model says '
         'the faulty init runs / the event is offered to the faulty state, the call must raise HsmTopologyException within the step '
         'budget (budget overrun = hangs) and must not run any entry/exit/init after the faulty point; every other step must still agree '
         'with the model. distinct_nontrivial = distinct (fault kind, target relation, reached by, topology class) tuples')
 CASES = {'quick': 6000, 'thorough': 300000}
 BUDGET = {'quick': 40, 'thorough': 300}
-REQUIRE = {'fault_reached_by_start': 300, 'fault_reached_by_dispatch': 300, 'none_offers': 300}
+REQUIRE = {'fault_reached_by_start': 300, 'fault_reached_by_dispatch': 300, 'none_offers': 300, 'statusless_state_entered_by_dispatch': 100, 'statusless_state_entered_by_start': 100}
 ASSUME = ['exactly one fault per chart; handlers returning None for exit / super-search signals are outside the statement and not injected']
 
 
@@ -36,7 +36,18 @@ def run_case(ctx, n):
   f = rng.randrange(N)
   host_cls = rng.choice([HsmEventProcessor, HsmEventProcessor, HsmWithQueues])
   spied = host_cls is HsmWithQueues and rng.random() < 0.5
-  if rng.random() < 0.3:
+  r0 = rng.random()
+  if r0 < 0.25:
+    # a handler that never returns a status (forgotten return statement)
+    fault = {'kind': 'none_always', 'state': f}
+    mspec = copy.deepcopy(spec)
+    for key in list(mspec['react']):
+      if key.startswith('%d:' % f):
+        del mspec['react'][key]
+    mspec['clauses'][f] = [False, False, False]
+    mspec['init'][f] = None
+    spec = copy.deepcopy(mspec)
+  elif r0 < 0.45:
     fault = {'kind': 'none_on_user', 'state': f}
     mspec = copy.deepcopy(spec)
     for key in list(mspec['react']):
@@ -79,7 +90,7 @@ def run_case(ctx, n):
           i = acts.index(('init', names[f])) if ('init', names[f]) in acts else None
           if i is None or acts[i + 1:]:
             ctx.violation('C24/enters-states-after-impossible-init', '%s: after the impossible init of %s these actions still ran: %r' % (where, names[f], acts[i + 1:] if i is not None else acts), dict(wit, failing_step=k))
-        elif acts:
+        elif acts and fault['kind'] == 'none_on_user':
           ctx.violation('C24/actions-before-none-status-detected', '%s: actions %r ran although %s returned no status' % (where, acts, names[f]), dict(wit, failing_step=k))
         return 'stop'
       if raised == 'budget':
@@ -93,9 +104,9 @@ def run_case(ctx, n):
     return acts
 
   exp = model.start(start)
-  reached = (fault['kind'] == 'bad_init' and model.cur == f)
+  reached = (fault['kind'] == 'bad_init' and model.cur == f) or (fault['kind'] == 'none_always' and f in model.touched)
   if reached:
-    ctx.count('fault_reached_by_start')
+    ctx.count('fault_reached_by_start' if fault['kind'] == 'bad_init' else 'statusless_state_entered_by_start')
   r = attempt(lambda: chart.start_at(run.fns[start]), reached, 'start_at', -1)
   if r == 'stop':
     return
@@ -104,12 +115,25 @@ def run_case(ctx, n):
     return
   for k, sn in enumerate(script):
     prev = model.cur
+    lenient = False
     exp_log, kind, S, T = model.dispatch(sn)
     if fault['kind'] == 'bad_init':
       reached = kind == 'tran' and model.cur == f
       if reached:
         ctx.count('fault_reached_by_dispatch')
         where = 'dispatch topology ' + cg.topo_class(mspec, S, T)
+    elif fault['kind'] == 'none_always':
+      offered = ('offer', names[f], sn) in exp_log
+      led_into = kind == 'tran' and f in model.touched
+      reached = offered or led_into
+      if offered:
+        ctx.count('none_offers')
+        where = 'dispatch'
+      elif led_into:
+        ctx.count('statusless_state_entered_by_dispatch')
+        where = 'dispatch topology %s leading into the status-less state' % cg.topo_class(mspec, S, T)
+      elif kind == 'tran' and (f in cg.anc(mspec, T) or f in cg.anc(mspec, prev)):
+        lenient = True       # only asked for its parent during the search: not constrained by the statement
     else:
       reached = ('offer', names[f], sn) in exp_log
       if reached:
@@ -122,6 +146,13 @@ def run_case(ctx, n):
     else:
       def go():
         chart.dispatch(Event(signal=sn))
+    if lenient:
+      try:
+        go()
+      except (HsmTopologyException, cg.Budget, Exception):
+        pass
+      ctx.count('search_only_steps_not_judged')
+      return
     r = attempt(go, reached, where if reached else 'dispatch', k)
     if r == 'stop':
       return
